@@ -11,7 +11,7 @@
 
 use super::c19::{Auth, Entry, Expect};
 use crate::svm;
-use crate::world1::{codes, World1};
+use crate::world1::{codes, create_token_account, World1};
 use anchor_lang::solana_program::{instruction::Instruction, pubkey::Pubkey};
 use anchor_lang::{InstructionData, ToAccountMetas};
 use gmsol_store::CoreError;
@@ -97,6 +97,20 @@ pub fn table() -> Vec<Entry> {
                 run_as(w, "transfer_receiver (pending)", w.k.ix_transfer_receiver(w.k.receiver, s))?;
             }
             Ok(w.k.ix_transfer_receiver(s, other("redirected-receiver")))
+        }),
+        // "must be a signer and be the designated fee receiver" — the proposed receiver is not it yet, the
+        // current one still is
+        st("claim_fees_from_market", Auth::Key(vec![core(CoreError::PermissionDenied)]), |w, s, a, r| {
+            if a {
+                make_receiver(w, s)?;
+                run_as(w, "transfer_receiver (pending)", w.k.ix_transfer_receiver(s, other("proposed-receiver")))?;
+            } else {
+                run_as(w, "transfer_receiver (pending)", w.k.ix_transfer_receiver(w.k.receiver, s))?;
+            }
+            let target = other("fee-target");
+            let mint = if r.bool() { w.k.long_mint } else { w.k.short_mint };
+            create_token_account(&mut w.vm, w.k.admin, target, mint, s, w.k.admin, 0).map_err(|e| format!("c19s prep: token account {e:?}"))?;
+            Ok(w.k.ix_claim_fees_from_market(s, w.k.markets[r.below(2)].market, mint, target))
         }),
         // the current receiver cannot accept for the proposed one
         st("accept_receiver", Auth::Key(vec![core(CoreError::PermissionDenied)]), |w, s, a, _r| {
